@@ -9,6 +9,7 @@ import (
 	"sort"
 	"strconv"
 	"strings"
+	"time"
 
 	"github.com/Vedant9500/WTF/internal/constants"
 	"github.com/Vedant9500/WTF/internal/history"
@@ -30,6 +31,7 @@ type c17Case struct {
 	Query string   `json:"query_quoted,omitempty"`
 	Env   []string `json:"env,omitempty"`
 	Prev  string   `json:"previous_query_quoted,omitempty"`
+	Hist  bool     `json:"history_populated,omitempty"`
 }
 
 func (cs c17Case) argv() []string {
@@ -72,12 +74,23 @@ var c17Subcommands = [][]string{
 }
 
 func c17ArgAtoms() []string {
-	return []string{"files", "list all files", "-x", "--", "", strings.Repeat("a", 1001), "a;b|c&$<>", "42", "--limit", "tar", "--format=json"}
+	return []string{"files", "list all files", "-x", "--", "", strings.Repeat("a", 1001), "a;b|c&$<>", "42", "--limit", "tar", "--format=json", "--limit=-1"}
 }
 
 func c17Subcmd(c *lib.Ctx, bin string, cs c17Case) *lib.Violation {
 	env := newCLIEnv(filepath.Join(c.Scratch, "c17a"))
 	writeYAML(filepath.Join(env.Cwd, "commands.yml"), uPick(uPool(), []int{0, 4, 6, 17}))
+	if cs.Hist {
+		// not the initial state: earlier searches have been recorded (their words are argument atoms too)
+		os.MkdirAll(filepath.Dir(env.HistoryPath()), 0o755)
+		h := history.NewSearchHistory(env.HistoryPath(), 100)
+		for i, hq := range []string{"files", "list all files", "tar", "42", "files"} {
+			h.AddEntry(hq, i, "generic", time.Duration(i+1)*time.Millisecond)
+		}
+		if err := h.Save(); err != nil {
+			c.Fail("cannot prepare a history file: %v", err)
+		}
+	}
 	r := env.runWith(bin, cs.Env, []byte{}, cs.argv()...)
 	if why := crashed(r); why != "" {
 		sub := "root"
@@ -453,6 +466,15 @@ func c17Run(c *lib.Ctx) {
 			if vio := c17Subcmd(c, bin, cs); vio != nil {
 				c.Violate(*vio)
 			}
+			if len(sub) > 0 && sub[0] == "history" {
+				// the history views also from a state in which searches have been recorded
+				cs.Hist = true
+				c.Rep.Evaluations++
+				c.Count("subcommand_runs_with_history", 1)
+				if vio := c17Subcmd(c, bin, cs); vio != nil {
+					c.Violate(*vio)
+				}
+			}
 		}
 	}
 	// scripted wizard answers
@@ -511,7 +533,7 @@ func c17Run(c *lib.Ctx) {
 func init() {
 	lib.Register(&lib.Check{
 		ID: "C17", Level: "model_checking",
-		Rule:      "(a) every sub-command form {search, root, pipeline, save, save-pipeline, history (+--stats/--top/--clear), alias, alias add/list/remove, setup, wizard, help, --version, --help, completion bash} x every argument vector of <=2 (quick) / <=3 (thorough) atoms from {word, phrase, -x, --, empty string, 1001 bytes, shell metacharacters, number, --limit, tar, --format=json}, stdin empty, + wizard tar/find/ffmpeg/unknown with 7 scripted answer streams: the real binary in an isolated home must finish with exit 0 or 1, without panic, signal or time-out. (b) the FULL product of 3 databases (2 entries, 12 equal-scoring entries, 40 entries) [plus a linux-only database with 3 typo queries, for which excluding platform flags leave no result but 'did you mean' suggestions] [and a reduced product - limit {absent,1,101} x format {absent,json} x -v x {colour, --no-color} x {none, -a} - for a damaged and a missing database file, which both end in the built-in list] x 10 queries (lexical, NLP-only, typo-fallback, recovery-only, no hit, metacharacter, 1001 bytes, case/white-space variant ...) x --limit {absent,0,1,3,100,101,-1} x --format {absent,table,json,JSON,xml} x -v x {colour, --no-color, NO_COLOR} x platform flags {none, -p linux, -p windows --no-cross-platform, -a} = 25,200 + 960 runs of the real binary (+ a preceding run for two thirds of them), each compared with the engine driven in-process through the same exported functions with the options the CLI constructs: same entries in the same order, count <= limit in force, JSON block parses with one object per result, no ESC byte when colour is off, history file parses with this query newest and the right length and result count; rejected requests neither search nor record. non-trivial = searches that print results",
+		Rule:      "(a) every sub-command form {search, root, pipeline, save, save-pipeline, history (+--stats/--top/--clear), alias, alias add/list/remove, setup, wizard, help, --version, --help, completion bash} x every argument vector of <=2 (quick) / <=3 (thorough) atoms from {word, phrase, -x, --, empty string, 1001 bytes, shell metacharacters, number, --limit, tar, --format=json, --limit=-1}, stdin empty, the history forms both with no history and with five recorded searches, + wizard tar/find/ffmpeg/unknown with 7 scripted answer streams: the real binary in an isolated home must finish with exit 0 or 1, without panic, signal or time-out. (b) the FULL product of 3 databases (2 entries, 12 equal-scoring entries, 40 entries) [plus a linux-only database with 3 typo queries, for which excluding platform flags leave no result but 'did you mean' suggestions] [and a reduced product - limit {absent,1,101} x format {absent,json} x -v x {colour, --no-color} x {none, -a} - for a damaged and a missing database file, which both end in the built-in list] x 10 queries (lexical, NLP-only, typo-fallback, recovery-only, no hit, metacharacter, 1001 bytes, case/white-space variant ...) x --limit {absent,0,1,3,100,101,-1} x --format {absent,table,json,JSON,xml} x -v x {colour, --no-color, NO_COLOR} x platform flags {none, -p linux, -p windows --no-cross-platform, -a} = 25,200 + 960 runs of the real binary (+ a preceding run for two thirds of them), each compared with the engine driven in-process through the same exported functions with the options the CLI constructs: same entries in the same order, count <= limit in force, JSON block parses with one object per result, no ESC byte when colour is off, history file parses with this query newest and the right length and result count; rejected requests neither search nor record. non-trivial = searches that print results",
 		Assume:    []string{"isolated HOME / XDG_CONFIG_HOME and an empty working directory (context = generic, no boosts)", "printed commands are single-line (test databases)", "the in-process engine runs with map order pinned; the binary with the runtime's order (equal by C02)"},
 		QuickSecs: 400, ThorSecs: 1800,
 		Run: c17Run,
